@@ -14,9 +14,12 @@ func (p *Parser) getToken() {
 	if p.ungetFlg {
 		p.ungetFlg = false
 		p.Lexer.IsSpace = p.Lexer.IsSpacePrev
+		p.isFreshToken = false
 
 		return
 	}
+
+	p.isFreshToken = true
 
 	if p.Lexer.Advance() {
 		p.token = p.Lexer.Token()
@@ -101,7 +104,9 @@ func (p *Parser) Read() (*base.T, error) {
 		stringValue := p.Lexer.Value().(string)
 		t = base.MakeString(stringValue)
 
-		if p.BeforeString != stringValue {
+		// a token served again after Unget must not be counted twice; two different
+		// literals with the same text must both be counted
+		if p.isFreshToken {
 			// Count newlines in string and increment p.Row accordingly
 			newlineCount := strings.Count(stringValue, "\n")
 			p.Row += newlineCount
